@@ -45,11 +45,18 @@ RELATIONS = ['disjoint', 'same_names', 'shared_nested', 'subclass']
 def gen_pair(r, relation, ext=False):
     """returns (history, set of G class ids)"""
     p = base.Prog(r, max_classes=8, ext=ext)
+    p.allow_fwd = False
     F, G = set(), set()
     shared = None
     if relation == 'shared_nested':
         shared = p.new_class('leaf', wiz=r.random() < 0.4, mod='b')
         G.add(shared)
+        if r.random() < 0.5:
+            # two nesting levels: the shared class itself holds a nested class (the DEEPEST class is then observed
+            # through F, through G and through the shared class alone)
+            deep = shared
+            shared = p.new_class('root', force_nested=[deep], wiz=r.random() < 0.4, mod='b')
+            G.add(shared)
     nF, nG = r.choice([1, 2, 2, 3]), r.choice([1, 2, 2, 3])
     order = ['F'] * nF + ['G'] * nG
     r.shuffle(order)
@@ -130,24 +137,30 @@ def lattice_pairs(r):
                     if auto:
                         meta['auto_tags'] = True
                     wiz = r.random() < 0.5
-                    nf = [['my_val', 'int', None], ['seen_at', 'datetime', None], ['x', 'int', 0]]
-                    n_inst = {'c': 1, 'f': [['my_val', {'i': r.randrange(1, 9)}], ['seen_at', {'dt': '2020-01-01T00:00:00+00:00'}], ['x', {'i': 0}]]}
-                    n_doc = {'my_val': 2, 'seen_at': '2020-01-01T00:00:00+00:00', 'extra': 'x'}
-                    h = [cls(1, nf, False, 'b'), cls(2, [['n_item', {'nested': 1}, None]], wiz, 'a'),
+                    mf = [['y', 'int', 1], ['x', 'int', 0]]
+                    m_inst = {'c': 4, 'f': [['y', {'i': r.choice([1, 5])}], ['x', {'i': 0}]]}
+                    nf = [['my_val', 'int', None], ['seen_at', 'datetime', None], ['m_item', {'nested': 4}, None], ['x', 'int', 0]]
+                    n_inst = {'c': 1, 'f': [['my_val', {'i': r.randrange(1, 9)}], ['seen_at', {'dt': '2020-01-01T00:00:00+00:00'}],
+                                            ['m_item', m_inst], ['x', {'i': 0}]]}
+                    n_doc = {'my_val': 2, 'seen_at': '2020-01-01T00:00:00+00:00', 'm_item': {'y': 3, 'ID': 8, 'zz': 1},
+                             'extra': 'x', 'ID': 9, 'Alt-Key': 5}
+                    h = [cls(4, mf, False, 'b'), cls(1, nf, False, 'b'), cls(2, [['n_item', {'nested': 1}, None]], wiz, 'a'),
                          cls(3, [['n_item', {'nested': 1}, None]], False, 'b')]
                     if wiz and r.random() < 0.5:
-                        h[1]['inner'] = meta
+                        h[2]['inner'] = meta
                     else:
                         h.append({'op': 'bind', 'cid': 2, 'meta': meta, 'tag': 'bind'})
                     f_ops = [{'op': 'dump', 'attr': False, 'inst': {'c': 2, 'f': [['n_item', n_inst]]}, 'tag': 'dump'},
-                             {'op': 'load', 'cid': 2, 'attr': False, 'doc': {'n_item': dict(n_doc, extra=None) if lopt.get('raise') is None else {'my_val': 2, 'seen_at': 1577836800}}, 'tag': 'load'}]
+                             {'op': 'load', 'cid': 2, 'attr': False, 'doc': {'n_item': dict(n_doc, extra=None) if lopt.get('raise') is None else {'my_val': 2, 'seen_at': 1577836800, 'm_item': {'y': 2}}}, 'tag': 'load'}]
                     r.shuffle(f_ops)
                     g_ops = [{'op': 'dump', 'attr': False, 'inst': {'c': 3, 'f': [['n_item', n_inst]]}, 'tag': 'dump'},
                              {'op': 'load', 'cid': 3, 'attr': False, 'doc': {'n_item': n_doc}, 'tag': 'load'},
                              {'op': 'dump', 'attr': False, 'inst': n_inst, 'tag': 'dump'},
-                             {'op': 'load', 'cid': 1, 'attr': False, 'doc': n_doc, 'tag': 'load'}]
+                             {'op': 'load', 'cid': 1, 'attr': False, 'doc': n_doc, 'tag': 'load'},
+                             {'op': 'dump', 'attr': False, 'inst': m_inst, 'tag': 'dump'},
+                             {'op': 'load', 'cid': 4, 'attr': False, 'doc': {'y': 3, 'ID': 8, 'zz': 1}, 'tag': 'load'}]
                     r.shuffle(g_ops)
-                    out.append((h + f_ops + g_ops, {1, 3}))
+                    out.append((h + f_ops + g_ops, {1, 3, 4}))
     return out
 
 
@@ -185,7 +198,7 @@ def caused_by_other(h, G, regs, i, _seen=None):
     seen = _seen if _seen is not None else set()
     out = []
     for f, causes in regs[i].items():
-        if f not in ('F10', 'F11', 'F40'):
+        if f not in ('F2', 'F10', 'F11', 'F40'):
             continue
         for c in causes:
             if base.op_class(h[c]) not in G:
